@@ -585,7 +585,13 @@ func c16Child(c *Cfg) {
 		fmt.Fprintln(os.Stderr, "C16 worker:", msg)
 		os.Exit(3)
 	}
-	raw, err := base64.StdEncoding.DecodeString(strings.TrimPrefix(c.Replay, "worker:"))
+	var raw []byte
+	var err error
+	if f, ok := strings.CutPrefix(c.Replay, "worker:@"); ok {
+		raw, err = os.ReadFile(f)
+	} else {
+		raw, err = base64.StdEncoding.DecodeString(strings.TrimPrefix(c.Replay, "worker:"))
+	}
 	if err != nil {
 		fail("bad spec encoding: " + err.Error())
 	}
@@ -991,9 +997,17 @@ func (p *c16Parent) start(spec c16Spec, crashAt int) *c16Proc {
 	raw, _ := json.Marshal(spec)
 	pr.outDir, _ = os.MkdirTemp(p.root, "out-")
 	pr.ctx, pr.cancel = context.WithTimeout(context.Background(), c16ChildTimeout)
+	// small specs travel on the command line, big ones (batched recovery jobs) in a file
+	arg := "worker:" + base64.StdEncoding.EncodeToString(raw)
+	if len(arg) > 60_000 {
+		f := filepath.Join(pr.outDir, "spec.json")
+		if err := os.WriteFile(f, raw, 0o666); err == nil {
+			arg = "worker:@" + f
+		}
+	}
 	pr.cmd = exec.CommandContext(pr.ctx, p.exe, "C16",
 		"-seed", fmt.Sprint(spec.Seed), "-tier", p.c.Tier, "-out", pr.outDir,
-		"-replay", "worker:"+base64.StdEncoding.EncodeToString(raw))
+		"-replay", arg)
 	var env []string
 	for _, kv := range os.Environ() {
 		if !strings.HasPrefix(kv, "VERIF_CRASH_AT=") {
@@ -1754,6 +1768,9 @@ func (p *c16Parent) runChains(env *c16Env, tag string, chains []*c16Chain, worke
 	if len(chains) == 0 {
 		return bufs, h2
 	}
+	if need := (len(chains) + 11) / 12; workers < need { // at most a dozen cases per worker process
+		workers = need
+	}
 	if workers > len(chains) {
 		workers = len(chains)
 	}
@@ -1761,7 +1778,7 @@ func (p *c16Parent) runChains(env *c16Env, tag string, chains []*c16Chain, worke
 	for i := range chains {
 		groups[i%workers] = append(groups[i%workers], i)
 	}
-	c16Pool(workers, workers, func(g int) {
+	c16Pool(workers, 16, func(g int) {
 		var jobs []c16Job
 		for _, i := range groups[g] {
 			jobs = append(jobs, chains[i].jobs...)
@@ -2073,6 +2090,10 @@ func c16ParentMain(c *Cfg) {
 	for _, e := range envs {
 		for mi := 0; mi < nm; mi++ {
 			for k := 1; k <= H[mi]+1; k++ {
+				// quick tier: every hook index for modules 0 and 1, every second one for module 2
+				if mi == 2 && k%2 == 0 && k <= H[mi] && !c.Thorough() && !c.Focus {
+					continue
+				}
 				p2 = append(p2, p2c{e, mi, "fetch", k, k <= H[mi]})
 			}
 			for k := 1; k <= HM[mi]+1; k++ {
@@ -2910,10 +2931,10 @@ func (p *c16Parent) p7Case(env *c16Env, idx, mi int, reader string, crash int) *
 	w := cs.worker("interleave")
 	sp := cs.spec(w, nil, false)
 	sp.CacheDir = work
-	// quick tier: every (w1, w2) pair from the empty cache; on a crashed cache only "W stays"
-	// and "W finishes" for a parked reader; thorough and -focus: every pair everywhere
+	// quick tier: every (w1, w2) pair for FetchFromCache from the empty cache; otherwise only
+	// "W stays" and "W finishes" for a parked reader; thorough and -focus: every pair everywhere
 	sp.IL = &c16ILSpec{Mod: mi, Reader: reader, Template: tmpl, Races: 2,
-		Sweep: crash == 0 || p.c.Thorough() || p.c.Focus}
+		Sweep: (crash == 0 && reader == "fromcache") || p.c.Thorough() || p.c.Focus}
 	proc := p.start(sp, 0)
 	<-proc.done
 	raw := proc.stdout.String()
